@@ -4,8 +4,8 @@
 // `sos_core::Paths`.  Included at the TOP LEVEL of units/files.vrs after the
 // extraction of `ExternalFileName` (it names that type).
 // The account lookup (`backend.read() .. accounts.get(..)`) and the `Caller`
-// typestate are under contract in unit `auth` (C11); here they only have to
-// type-check: no contract, every result is possible.
+// typestate are under contract in unit `auth` (C11); here they carry just
+// enough specification to NAME the account's `Paths` in the contract.
 // Every `external_body` and `uninterp spec fn` below is an ASSUMPTION.
 // ===========================================================================
 
@@ -22,14 +22,21 @@ impl<T> RwLock<T> {
     { unimplemented!() }
 }
 
-/// std::collections::HashMap<K, V> — only `get`, no contract needed here
+/// std::collections::HashMap<K, V> — only `get` (std meaning: lookup)
 #[verifier::external_body]
 #[verifier::reject_recursive_types(K)]
 #[verifier::reject_recursive_types(V)]
 pub struct HashMap<K, V> { _k: Vec<K>, _v: Vec<V> }
+impl<K, V> View for HashMap<K, V> {
+    type V = Map<K, V>;
+    uninterp spec fn view(&self) -> Map<K, V>;
+}
 impl<K, V> HashMap<K, V> {
     #[verifier::external_body]
     pub fn get(&self, k: &K) -> (r: Option<&V>)
+        ensures
+            r.is_some() <==> self@.contains_key(*k),
+            r.is_some() ==> *r.unwrap() == self@[*k],
     { unimplemented!() }
 }
 
@@ -76,8 +83,11 @@ pub type Accounts = Arc<RwLock<HashMap<AccountId, ServerAccount>>>;
 #[verifier::external_body]
 pub struct Backend { _p: () }
 impl Backend {
+    pub uninterp spec fn accounts_spec(&self) -> Accounts;
+    /// `Arc::clone(&self.accounts)` (backend.rs:48)
     #[verifier::external_body]
     pub fn accounts(&self) -> (r: Accounts)
+        ensures r == self.accounts_spec(),
     { unimplemented!() }
 }
 pub type ServerBackend = Arc<RwLock<Backend>>;
@@ -89,8 +99,10 @@ pub type ServerState = Arc<RwLock<State>>;
 #[verifier::external_body]
 pub struct Caller { _p: () }
 impl Caller {
+    pub uninterp spec fn account_id_spec(&self) -> AccountId;
     #[verifier::external_body]
     pub fn account_id(&self) -> (r: &AccountId)
+        ensures *r == self.account_id_spec(),
     { unimplemented!() }
 }
 
